@@ -14,6 +14,7 @@ import (
 	"math"
 	"os"
 	"regexp"
+	"runtime/debug"
 	"strings"
 	"sync/atomic"
 
@@ -927,6 +928,9 @@ func (x *Exec) runStep(sc *Scenario, st *Step) {
 			if r := recover(); r != nil {
 				ev["pan"] = 1
 				ev["panmsg"] = fmt.Sprint(r)
+				if os.Getenv("VERIF_DEBUG") != "" {
+					fmt.Fprintf(os.Stderr, "panic in scenario %d step %d: %v\n%s\n", x.scn, x.step, r, debug.Stack())
+				}
 				// a panicking operation still yields a family member so that ids stay aligned on replay
 				if _, isFrameOp := frameOps[st.Op]; isFrameOp && len(x.frames) == nF {
 					x.frames = append(x.frames, qframe.QFrame{Err: fmt.Errorf("panic")})
